@@ -37,6 +37,19 @@ gen_overlay_e2() {
   mkdir -p "$BUILD/e2"
   (cd "$VERIF/harness" && go build -o "$BUILD/vrewrite" ./cmd/vrewrite) || return 1
   "$BUILD/vrewrite" "$REPO/engine/engine.go" "$BUILD/e2/engine.go" || { echo "rewriter failed on engine.go"; return 1; }
+  # every non-test file of arr.ai that imports "sync" is rebuilt against the scheduler-aware vsync shim
+  # (pass-through outside an explored execution), so first-use contention on the lazily built state can be explored (C11)
+  : > "$BUILD/e2/sync_files.txt"
+  for f in $(cd "$REPO" && grep -l '"sync"' $(git ls-files '*.go' | grep -v _test.go | grep -v '^cmd/') 2>/dev/null); do
+    out="$BUILD/e2/$(echo "$f" | tr / _)"
+    "$BUILD/vrewrite" "$REPO/$f" "$out" sync || { echo "rewriter failed on $f"; return 1; }
+    echo "$f $out" >> "$BUILD/e2/sync_files.txt"
+  done
+  # frozen's parallel fan-out (internal/pkg/depth/gauge.go: one goroutine + buffered channel per branch)
+  MODCACHE=$(cd "$REPO" && go env GOMODCACHE)
+  GAUGE="$MODCACHE/github.com/arr-ai/frozen@v1.11.0/internal/pkg/depth/gauge.go"
+  "$BUILD/vrewrite" "$GAUGE" "$BUILD/e2/frozen_gauge.go" || { echo "rewriter failed on frozen gauge.go"; return 1; }
+  echo "$GAUGE" > "$BUILD/e2/gauge_path.txt"
   python3 - "$VERIF" "$REPO" "$BUILD" > "$BUILD/overlay_e2.json" <<'PY'
 import json, sys
 verif, repo, build = sys.argv[1:4]
@@ -46,6 +59,10 @@ for f in ("sched.go", "chan.go", "chan_generic.go"):
     m[shim + f] = verif + "/hooks/e2/vsched/" + f + ".txt"
 m[shim + "vsync/vsync.go"] = verif + "/hooks/e2/vsched/vsync/vsync.go.txt"
 m[repo + "/engine/engine.go"] = build + "/e2/engine.go"
+for line in open(build + "/e2/sync_files.txt"):
+    f, out = line.split()
+    m[repo + "/" + f] = out
+m[open(build + "/e2/gauge_path.txt").read().strip()] = build + "/e2/frozen_gauge.go"
 m[repo + "/engine/zz_verif.go"] = verif + "/hooks/engine_zz_verif.go.txt"
 print(json.dumps({"Replace": m}, indent=1))
 PY
